@@ -1119,6 +1119,8 @@ def add_time_after_dose(model: Model):
 
     try:
         addl = temp.datainfo.typeix['additional'][0].name
+        # expand_additional_doses needs the interdose interval as well
+        temp.datainfo.typeix['ii'][0]
     except IndexError:
         addl = None
     else:
